@@ -52,6 +52,72 @@ def _sym_block(stmts, env, funcs, opaque):
     return env
 
 
+def _r2_textual(ctx, nad):
+    """shape-based form of R2 (consulted only when _attempt_hop cannot be interpreted)"""
+    ah = nad.func("SurfaceHoppingDynamics._attempt_hop")
+    # SSA over straight-line top-level assignments
+    versions = {}
+    chain = []  # (name, version, value)
+    for st in ah.body:
+        if isinstance(st, ast.Assign) and len(st.targets) == 1 and isinstance(st.targets[0], ast.Name):
+            nm = st.targets[0].id
+            versions[nm] = versions.get(nm, -1) + 1
+            chain.append((nm, versions[nm], st))
+    def is_clamp0(v):
+        if isinstance(v, ast.Call):
+            cn = call_name(v) or ""
+            ca = callee_attr(v)
+            kws = {k.arg: norm(k.value) for k in v.keywords}
+            if ca in ("clamp", "clamp_min") and (kws.get("min") in ("0.0", "0") or (ca == "clamp_min" and v.args and norm(v.args[-1]) in ("0", "0.0"))) \
+                    and "max" not in kws:
+                return True
+            if ca == "relu":
+                return True
+        return False
+    g_defs = [(ver, st) for nm, ver, st in chain if nm == "g_rows"]
+    sum_defs = [st for nm, ver, st in chain if nm == "g_sum"]
+    if len(g_defs) < 3 or len(sum_defs) != 1:
+        raise AnalysisError("_attempt_hop: g_rows / g_sum chain not recognised")
+    clamp_idx = [i for i, (ver, st) in enumerate(g_defs) if is_clamp0(st.value) and "g_rows" in names_in(st.value)]
+    where_idx = [i for i, (ver, st) in enumerate(g_defs) if isinstance(st.value, ast.Call) and call_name(st.value) == "torch.where"]
+    pos = {id(st): i for i, (_, _, st) in enumerate(chain)}
+    ok_order = bool(clamp_idx) and bool(where_idx) and pos[id(g_defs[clamp_idx[0]][1])] < pos[id(sum_defs[0])] < pos[id(g_defs[where_idx[0]][1])]
+    ctx.check(ok_order, "R2", nad, ah, "SurfaceHoppingDynamics._attempt_hop", "clamp -> sum -> where",
+              "negative fewest-switches rates are clamped to zero before the row sum and the normalisation",
+              "hop probabilities: clamp(min=0) does not precede the row sum / normalisation (probabilities can leave [0,1])")
+    sv = sum_defs[0].value
+    ctx.check(isinstance(sv, ast.Call) and callee_attr(sv) == "sum" and norm(sv.func.value) == "g_rows" and
+              {k.arg: norm(k.value) for k in sv.keywords}.get("dim") == "1", "R2", nad, sum_defs[0], "SurfaceHoppingDynamics._attempt_hop", sum_defs[0],
+              "row sum over target states of the clamped rates", f"g_sum = `{norm(sv)}`")
+    if where_idx:
+        w = g_defs[where_idx[0]][1].value
+        a = w.args
+        cond_ok = len(a) == 3 and norm(a[0]).replace(" ", "") in ("g_sum>1.0", "g_sum>1")
+        t_ok = len(a) == 3 and isinstance(a[1], ast.BinOp) and isinstance(a[1].op, ast.Div) and norm(a[1].left) == "g_rows" and "g_sum" in names_in(a[1].right)
+        f_ok = len(a) == 3 and norm(a[2]) == "g_rows"
+        ctx.check(cond_ok and t_ok and f_ok, "R2", nad, w, "SurfaceHoppingDynamics._attempt_hop", w,
+                  "rows are renormalised only when their sum exceeds one: where(g_sum > 1, g/g_sum, g)",
+                  f"normalisation is `{short(w, 90)}`: row sums can exceed one or small probabilities are inflated")
+    draws = [c for c in calls_in(ah) if (call_name(c) or "") in ("torch.rand", "torch.rand_like")]
+    ctx.check(len(draws) == 1 and norm(draws[0].args[0]) == "nmol" and not any(k.arg == "generator" for k in draws[0].keywords), "R2", nad, ah,
+              "SurfaceHoppingDynamics._attempt_hop", draws[0] if draws else ah.name, "one uniform draw per trajectory from the global generator",
+              f"{len(draws)} uniform draws / wrong shape in _attempt_hop")
+    d = local_defs(ah)
+    cs = d.get("cumsum", [])
+    cmpd = d.get("cmp", [])
+    ok = len(cs) == 1 and norm(cs[0]).replace(" ", "") == "torch.cumsum(g_rows,dim=1)" and len(cmpd) == 1 and \
+        norm(cmpd[0]).replace(" ", "") in ("cumsum>=r.unsqueeze(1)", "cumsum>r.unsqueeze(1)")
+    ctx.check(ok, "R2", nad, ah, "SurfaceHoppingDynamics._attempt_hop", "cumsum >= r", "target = first state whose cumulative probability reaches the draw",
+              f"selection is cumsum={[norm(c) for c in cs]}, cmp={[norm(c) for c in cmpd]}")
+    gr0 = g_defs[0][1].value
+    ok = isinstance(gr0, ast.BinOp) and isinstance(gr0.op, ast.Div) and norm(gr0.left).replace(" ", "") == "self._hop_integral[arange,i_state]" and "denom" in names_in(gr0.right)
+    den = d.get("denom", [])
+    ok = ok and len(den) == 1 and "pop[arange, i_state]" in norm(den[0])
+    ctx.check(ok, "R2", nad, g_defs[0][1], "SurfaceHoppingDynamics._attempt_hop", g_defs[0][1], "rates are the active row of the hop integral divided by the active population",
+              f"g_rows = `{norm(gr0)}`, denom = {[norm(x) for x in den]}")
+
+
+
 def run(ctx):
     import sympy as sp
     repo = ctx.repo
@@ -145,66 +211,23 @@ def run(ctx):
 
     # ------------------------------------------------------------------ R2
     ah = nad.func("SurfaceHoppingDynamics._attempt_hop")
-    # SSA over straight-line top-level assignments
-    versions = {}
-    chain = []  # (name, version, value)
-    for st in ah.body:
-        if isinstance(st, ast.Assign) and len(st.targets) == 1 and isinstance(st.targets[0], ast.Name):
-            nm = st.targets[0].id
-            versions[nm] = versions.get(nm, -1) + 1
-            chain.append((nm, versions[nm], st))
-    def is_clamp0(v):
-        if isinstance(v, ast.Call):
-            cn = call_name(v) or ""
-            ca = callee_attr(v)
-            kws = {k.arg: norm(k.value) for k in v.keywords}
-            if ca in ("clamp", "clamp_min") and (kws.get("min") in ("0.0", "0") or (ca == "clamp_min" and v.args and norm(v.args[-1]) in ("0", "0.0"))) \
-                    and "max" not in kws:
-                return True
-            if ca == "relu":
-                return True
-        return False
-    g_defs = [(ver, st) for nm, ver, st in chain if nm == "g_rows"]
-    sum_defs = [st for nm, ver, st in chain if nm == "g_sum"]
-    if len(g_defs) < 3 or len(sum_defs) != 1:
-        raise AnalysisError("_attempt_hop: g_rows / g_sum chain not recognised")
-    clamp_idx = [i for i, (ver, st) in enumerate(g_defs) if is_clamp0(st.value) and "g_rows" in names_in(st.value)]
-    where_idx = [i for i, (ver, st) in enumerate(g_defs) if isinstance(st.value, ast.Call) and call_name(st.value) == "torch.where"]
-    pos = {id(st): i for i, (_, _, st) in enumerate(chain)}
-    ok_order = bool(clamp_idx) and bool(where_idx) and pos[id(g_defs[clamp_idx[0]][1])] < pos[id(sum_defs[0])] < pos[id(g_defs[where_idx[0]][1])]
-    ctx.check(ok_order, "R2", nad, ah, "SurfaceHoppingDynamics._attempt_hop", "clamp -> sum -> where",
-              "negative fewest-switches rates are clamped to zero before the row sum and the normalisation",
-              "hop probabilities: clamp(min=0) does not precede the row sum / normalisation (probabilities can leave [0,1])")
-    sv = sum_defs[0].value
-    ctx.check(isinstance(sv, ast.Call) and callee_attr(sv) == "sum" and norm(sv.func.value) == "g_rows" and
-              {k.arg: norm(k.value) for k in sv.keywords}.get("dim") == "1", "R2", nad, sum_defs[0], "SurfaceHoppingDynamics._attempt_hop", sum_defs[0],
-              "row sum over target states of the clamped rates", f"g_sum = `{norm(sv)}`")
-    if where_idx:
-        w = g_defs[where_idx[0]][1].value
-        a = w.args
-        cond_ok = len(a) == 3 and norm(a[0]).replace(" ", "") in ("g_sum>1.0", "g_sum>1")
-        t_ok = len(a) == 3 and isinstance(a[1], ast.BinOp) and isinstance(a[1].op, ast.Div) and norm(a[1].left) == "g_rows" and "g_sum" in names_in(a[1].right)
-        f_ok = len(a) == 3 and norm(a[2]) == "g_rows"
-        ctx.check(cond_ok and t_ok and f_ok, "R2", nad, w, "SurfaceHoppingDynamics._attempt_hop", w,
-                  "rows are renormalised only when their sum exceeds one: where(g_sum > 1, g/g_sum, g)",
-                  f"normalisation is `{short(w, 90)}`: row sums can exceed one or small probabilities are inflated")
-    draws = [c for c in calls_in(ah) if (call_name(c) or "") in ("torch.rand", "torch.rand_like")]
-    ctx.check(len(draws) == 1 and norm(draws[0].args[0]) == "nmol" and not any(k.arg == "generator" for k in draws[0].keywords), "R2", nad, ah,
-              "SurfaceHoppingDynamics._attempt_hop", draws[0] if draws else ah.name, "one uniform draw per trajectory from the global generator",
-              f"{len(draws)} uniform draws / wrong shape in _attempt_hop")
-    d = local_defs(ah)
-    cs = d.get("cumsum", [])
-    cmpd = d.get("cmp", [])
-    ok = len(cs) == 1 and norm(cs[0]).replace(" ", "") == "torch.cumsum(g_rows,dim=1)" and len(cmpd) == 1 and \
-        norm(cmpd[0]).replace(" ", "") in ("cumsum>=r.unsqueeze(1)", "cumsum>r.unsqueeze(1)")
-    ctx.check(ok, "R2", nad, ah, "SurfaceHoppingDynamics._attempt_hop", "cumsum >= r", "target = first state whose cumulative probability reaches the draw",
-              f"selection is cumsum={[norm(c) for c in cs]}, cmp={[norm(c) for c in cmpd]}")
-    gr0 = g_defs[0][1].value
-    ok = isinstance(gr0, ast.BinOp) and isinstance(gr0.op, ast.Div) and norm(gr0.left).replace(" ", "") == "self._hop_integral[arange,i_state]" and "denom" in names_in(gr0.right)
-    den = d.get("denom", [])
-    ok = ok and len(den) == 1 and "pop[arange, i_state]" in norm(den[0])
-    ctx.check(ok, "R2", nad, g_defs[0][1], "SurfaceHoppingDynamics._attempt_hop", g_defs[0][1], "rates are the active row of the hop integral divided by the active population",
-              f"g_rows = `{norm(gr0)}`, denom = {[norm(x) for x in den]}")
+    # decided by value: the routine is interpreted (sa.npsym) on exact-rational batches designed to exercise every decision of the fewest-switches selection on both sides and
+    # compared with the documented rule; the shape-based form is consulted only when the routine cannot be interpreted
+    from ..assembly import interpreted_hop_selection
+    try:
+        ok, msg, facts = interpreted_hop_selection(ctx.repo)
+        interpreted = True
+    except AnalysisError as e:
+        ctx.note(f"_attempt_hop could not be interpreted ({str(e)[:100]}); the shape-based form of R2 is used")
+        interpreted = False
+    if interpreted:
+        ctx.check(ok, "R2", nad, ah, "SurfaceHoppingDynamics._attempt_hop", "fewest-switches selection",
+                  "hop targets equal the fewest-switches rule on %d interpreted requests (%d hops, %d non-hops): rates = active row of the hop integral / floored active population, "
+                  "clamped at zero, renormalised only when the row sum exceeds one, one uniform draw per trajectory from the global generator, target = first state whose "
+                  "cumulative probability reaches the draw" % (facts["requests"], facts["hops"], facts["no_hops"]),
+                  msg)
+    else:
+        _r2_textual(ctx, nad)
 
     # ------------------------------------------------------------------ R3
     rv = nad.func("SurfaceHoppingDynamics._rescale_velocity_along_nac")
